@@ -4,6 +4,8 @@ from __future__ import annotations
 import itertools
 
 ASCII = [chr(i) for i in range(128)]
+# U+0080..U+00FF: one-byte (Latin-1) string kind in CPython but not ASCII; 0x80 + c aliases the ASCII character c in 7-bit tables
+LATIN1_HIGH = [chr(i) for i in range(128, 256)]
 
 # one representative per character class
 CLS = ["a", "Z", "0", "~", ".", "-", "/", "?", "#", "@", ":", "[", "]", "&", "=", "+", ";", "!", " ", '"',
@@ -22,7 +24,7 @@ ESC = ["%41", "%7e", "%7E", "%2F", "%2f", "%2B", "%2b", "%26", "%3D", "%3B", "%3
 
 # reduced class alphabet for the deepest enumerations (k = 4..5): every *behavioural* class of the quoters
 CORE = ["a", "f", "F", "4", "g", ".", "/", "?", "#", "@", ":", "&", "=", "+", ";", " ", '"', "%", "é", "\U0001f600",
-        "%41", "%2F", "%2b", "%26", "%3D", "%25", "%20", "%C3", "%A9", "%FF", "%e2"]
+        "%41", "%2F", "%2b", "%26", "%3D", "%25", "%20", "%C3", "%A9", "%FF", "%e2", "%2E"]
 
 DELIM = ["a", "1", ":", "/", "?", "#", "[", "]", "@", "%", " ", "\t", "\n", "+", ".", "//", "::1", "v1.x", "é", "\u0662", ":080"]
 
